@@ -116,6 +116,8 @@ def gen_malformed(rng):
         data = rng.choice([b"\n", b"\n\n", b"   \n"]); 
     elif k < 0.5:
         data = b">only\n"
+    elif k < 0.55:
+        data = rng.choice([b"ACGT", b"ACGTNN", b"NNNN", b"A"])          # no header, no terminator: one line
     elif k < 0.6:
         data = b"ACGT\n" + data
     elif k < 0.7:
